@@ -225,6 +225,14 @@ def run_batch_property(prop, tier, seed):
                                                  rule="(text, start offset, matcher, parameters) for the eight public terminal matchers plus advance_safe/slice_until/range_until; parameters as the code generator emits them (insensitive literals ASCII-lowercased); oracle: reference matchers written with chars(); checks: same accept/reject, same consumed bytes, cursor on a char boundary, same error position and detail, no panic (cfg(peginator_verif) assertion on). Non-trivial = multi-byte character at the cursor.")
                 coverage["samples"] = coverage["samples"][:8] + j["samples"][:4]
                 violations.extend(j["violations"])
+            if tier == "thorough" and not violations:
+                stats, fv, problem = special.fuzz_campaign("fz_builtin", "C04", seed, 20000000, 48)
+                if stats:
+                    coverage["fuzz_campaign"] = stats
+                    coverage["evaluations"] += stats.get("number_of_executed_units", 0)
+                violations.extend(fv)
+                if problem:
+                    infra = infra or problem
     return finish(prop, tier, seed, t0, coverage, violations, BATCH_ASSUMPTIONS, infra)
 
 
